@@ -113,6 +113,43 @@ Fixpoint enc (d : nat) (h : heap) (o : opts) (ci : list nat) (v : val) {struct d
     end
   end.
 
+(* What a cell index is.  The checker stores rv2i(pointer): an interface value, i.e. the pair
+   (type, address), and eq4i compares both words.  A cell index of the model stands for one such
+   pair.  Two differently typed pointers to one address -- &v and &v.firstField, &arr and &arr[0]
+   -- are therefore two cells (the second holds the contents of the field / element), and all the
+   theorems, C20_complete in particular, cover graphs with such interior pointers.
+   [enc_addr addr] is what a checker that compared the address word only would do ([addr] maps a
+   cell to its address): kept to show that the type word is needed (Properties/C20.v). *)
+Definition push_addr (addr : nat -> nat) (ci : list nat) (a : nat) : option (list nat) :=
+  if existsb (Nat.eqb (addr a)) ci then None else Some (ci ++ [addr a]).
+
+Fixpoint enc_addr (addr : nat -> nat) (d : nat) (h : heap) (o : opts) (ci : list nat) (v : val) {struct d} : out :=
+  match d with
+  | 0 => OFuel
+  | S d' =>
+    match v with
+    | VScalar | VFunc | VNil _ => OOk ci
+    | VBad b _ => match bad_class o b with Some e => OErr e ci | None => OOk ci end
+    | VPtr a =>
+        let t := cell h a in
+        if chk o && cont_kind t then
+          match push_addr addr ci a with
+          | None => OErr ECircular ci
+          | Some ci1 =>
+              match enc_addr addr d' h o ci1 t with
+              | OOk ci2 => OOk (pop 1 ci2)
+              | r => r
+              end
+          end
+        else enc_addr addr d' h o ci t
+    | VIface w => enc_addr addr d' h o ci w
+    | VStruct fs => enc_list (enc_addr addr d' h o) ci fs
+    | VArr es => enc_list (enc_addr addr d' h o) ci es
+    | VSlice a => enc_addr addr d' h o ci (cell h a)
+    | VMap a => enc_addr addr d' h o ci (cell h a)
+    end
+  end.
+
 (* ---- the Encoder around it: sticky error, Reset ---- *)
 Record est := mkest { e_ci : list nat; e_err : option eclass }.
 Definition fresh : est := mkest [] None.
